@@ -3,7 +3,7 @@
    applies the same validation): acceptance is decided by valid_put alone; a rejected call leaves
    the state unchanged; reads do not change because of a flush or a restart. The crash part of the
    property (a rejected call leaves no trace in the WAL) is checked with the crash images of C02. *)
-From GoSST Require Import Base.Bytes Db.Logical Db.LogicalFacts.
+From GoSST Require Import Base.Bytes Db.Logical Db.LogicalFacts Db.Handle Db.HandleFacts.
 
 Theorem C17_put_rejects_exactly :
   forall (s : db) (k v : option bytes), snd (db_put s k v) = valid_put k v.
@@ -34,3 +34,25 @@ Theorem C17_run_refines_map :
   Forall2 out_same outs souts /\ (forall k, db_get s k = m k) /\ Inv s.
 Proof. exact db_refines_map. Qed.
 Print Assumptions C17_run_refines_map.
+
+(* the life cycle of a handle (Db/Handle.v: the open / closed flags every call tests first): a refused call - before
+   Open, after Close, a second Open - changes neither the flags nor the content *)
+Theorem C17_refused_call_has_no_effect :
+  forall (h : handle) (c : hcall) (e : herr), snd (h_step h c) = HRefused e -> fst (h_step h c) = h.
+Proof. exact refused_call_has_no_effect. Qed.
+Print Assumptions C17_refused_call_has_no_effect.
+
+(* and whatever refused calls surround them, the calls between the Open and the Close of a handle answer exactly as the
+   program of the logical database on the recovered content; everything before is refused with ErrNotOpenedYet,
+   everything after with ErrAlreadyClosed (a further Open: ErrAlreadyOpen; a Put with an empty or nil key or value is
+   refused as such in every state, its arguments are looked at first - [outside]) *)
+Theorem C17_handle_life :
+  forall (stored : db) (pre window post : list hcall),
+  Forall (fun c => c <> HOpen) pre -> Forall (fun c => c <> HClose) window ->
+  let opened := db_reopen stored in
+  h_run (handle_new stored) (pre ++ [HOpen] ++ window ++ [HClose] ++ post)
+  = (mkHandle true true (db_reopen (fst (window_outs opened window))),
+     map (outside ENotOpenedYet) pre ++ [HDone ODone] ++ snd (window_outs opened window) ++ [HDone ODone]
+     ++ map (outside EAlreadyClosed) post).
+Proof. exact handle_life. Qed.
+Print Assumptions C17_handle_life.
